@@ -52,7 +52,7 @@ def subset(spec, keep):
 
 
 class Shrinker(object):
-    def __init__(self, judge, target, budget=200, wall=300.0):
+    def __init__(self, judge, target, budget=200, wall=150.0):
         import time
         self.judge = judge
         self.target = target
